@@ -12,6 +12,7 @@ open Cal
 /-- WEEKLY argument sets covered by the proved portion of `iter_eq_spec` -/
 structure WeeklyArgs (a : Args) : Prop extends DWArgs a where
   freq : a.freq = 2
+  bysetpos : a.bysetpos = none
   wkst : 0 ≤ a.wkst.getD 0 ∧ a.wkst.getD 0 ≤ 6
   until_ge : ∀ u, a.untilDT = some u → Spec.RRule.startMicros a ≤ u.toMicros
 
@@ -100,7 +101,7 @@ theorem weekly_results (wa : WeeklyArgs a) (h : construct a = .ok r) (k : Nat) (
   have hs := daily_simple dw h
   obtain ⟨bh, bm, bs, hr⟩ := daily_rule dw h
   have hfreq : r.freq = 2 := by rw [hr]; exact wa.freq
-  have hsp : r.bysetpos = none := by rw [hr]
+  have hsp : r.bysetpos = none := by rw [hr]; exact wa.bysetpos
   have hwk : r.wkst = a.wkst.getD 0 := by rw [hr]
   have hf := W0_facts wa
   have hw := wa.wkst
